@@ -105,6 +105,17 @@ def ops(vec_path, out_path):
                     ev["op"] = "subst_norm"
                 ev["key"] = "%s:%s:%s" % (route, name, digest([v]))
                 out.write(json.dumps(ev, separators=(",", ":")) + "\n")
+                if name == "subst_type_inplace" and r is not None:
+                    # history: hash memoised BEFORE the in-place instantiation, then comparison with an equal fresh term
+                    fresh = dec(enc(r))
+                    oc2, q = outcome_of(lambda: (r == fresh, hash(r) == hash(fresh), sign(term_ord.fast_compare(r, fresh)),
+                                                 sign(term_ord.fast_compare(fresh, r)), fresh == r))
+                    tid += 1
+                    e2 = {"tid": tid, "kind": "eq", "how": "inplace-after-hash", "t1": enc(r), "t2": enc(fresh), "outcome": oc2,
+                          "key": "eq:inplace-after-hash:%s" % digest([v])}
+                    if q is not None:
+                        e2.update({"eq": q[0], "heq": q[1], "c12": q[2], "c21": q[3], "eq21": q[4]})
+                    out.write(json.dumps(e2, separators=(",", ":")) + "\n")
                 # history: the input term must be unchanged by the operation
                 if name not in ("subst_type_inplace",):
                     tid += 1
